@@ -169,6 +169,10 @@ func storeHistory(r *vk.Run, ntx, version int, withHist bool, pairs int) error {
 			if k == 0 {
 				mutateEntry(r, ip, sd, hdr.Eh, digests, vs)
 			}
+			if k < 2 {
+				r.Case(fmt.Sprintf("CEntryGen %d %s %d ((%d)%%Z, (%d)%%Z, %s)", hdr.Version, vk.List(es), k, ip.Leaf, ip.Width, digList(ip.Terms)),
+					map[string]any{"kind": "entrygen", "tx": id, "entry": k}, "gen/entry/"+vs, true)
+			}
 		}
 	}
 	// digest functions on inputs the store refuses: metadata with header version 0, unknown version
@@ -241,6 +245,10 @@ func storeHistory(r *vk.Run, ntx, version int, withHist bool, pairs int) error {
 		_, acc := caseDual(r, p, i, j, g.alhs[i-1], g.alhs[j-1], "store/honest/"+vs+"/"+shape)
 		if !acc {
 			r.Finding(fmt.Sprintf("completeness: store.VerifyDualProof rejected ImmuStore.DualProof(%d,%d) seed=%d", i, j, r.Seed))
+		}
+		if ntx <= 16 && q < 3 {
+			r.Case(fmt.Sprintf("CDualGen %s %d %d %s", hdrsTerm(g.hdrs), i, j, dualRecord(p)),
+				map[string]any{"kind": "dualgen", "i": i, "j": j}, "gen/dual/store/"+vs, true)
 		}
 		if err := mutateDual(r, g, p, i, j, g.alhs[i-1], g.alhs[j-1], first, 36, 8, "store/"+vs); err != nil {
 			return err
